@@ -494,7 +494,7 @@ pub fn s_split(cx: &mut Ctx) {
     // every query first: sizes of all functions are memoised before the operations run (and again in
     // between), so an operation that consults a query cache finds it full
     for (oi, op) in ["restrict", "constrain", "compose", "and", "xor"].iter().enumerate() {
-        cx_begin!(cx, 3, format!("new 11 {} {}", 2 + oi % 3, 5 + oi % 3), 256);
+        cx_begin!(cx, 3, format!("new 11 {} {}", 2 + oi % 3, 9 + oi % 3), 256);
         let hs = build_all3(cx);
         for &h in &hs {
             cx_op!(cx, format!("size {}", h));
@@ -571,7 +571,17 @@ pub fn s_hist(cx: &mut Ctx) {
         for v in 1..=n {
             vars.push(cx_op!(cx, format!("var {}", v)));
         }
+        // a lazy paths() iterator that stays alive across other operations (its function is kept as a root)
+        let mut open_it: Option<usize> = None;
         for step in 0..len {
+            if let Some(_) = open_it {
+                if cx.rng.chance(1, 3) {
+                    cx.op("pathsi.next".into());
+                    if cx.reply() == "end" || cx.reply().starts_with("panic") || cx.reply() == "closed" {
+                        open_it = None;
+                    }
+                }
+            }
             let live = cx.live();
             let pick = |cx: &mut Ctx| -> usize {
                 // prefer recent handles
@@ -583,7 +593,29 @@ pub fn s_hist(cx: &mut Ctx) {
             };
             let (a, b, c) = (pick(cx), pick(cx), pick(cx));
             let v = 1 + cx.rng.below(n as u64 + 1);
-            match cx.rng.below(40) {
+            match cx.rng.below(43) {
+                42 => {
+                    let which = *cx.rng.pick(&["cache", "size", "storage"]);
+                    let k = cx.rng.below(4);
+                    let mut roots: Vec<usize> = (0..k).map(|_| pick(cx)).collect();
+                    roots.extend(vars.iter().copied().filter(|&i| cx.ex.live[i]));
+                    if let Some(h) = open_it {
+                        roots.push(h);
+                    }
+                    let s: Vec<String> = roots.iter().map(|r| r.to_string()).collect();
+                    cx_op!(cx, format!("heldgc {} {}", which, s.join(" ")));
+                }
+                40 | 41 => {
+                    if open_it.is_none() {
+                        cx_op!(cx, format!("pathsi.open {}", a));
+                        if cx.reply() == "ok" {
+                            open_it = Some(a);
+                        }
+                    } else if cx.rng.chance(1, 4) {
+                        cx.op("pathsi.close".into());
+                        open_it = None;
+                    }
+                }
                 0..=6 => {
                     cx_op!(cx, format!("ite {} {} {}", a, b, c));
                 }
@@ -673,6 +705,9 @@ pub fn s_hist(cx: &mut Ctx) {
                     }
                     if cx.rng.chance(1, 2) {
                         roots.extend(vars.iter().copied().filter(|&i| cx.ex.live[i]));
+                    }
+                    if let Some(h) = open_it {
+                        roots.push(h);
                     }
                     let s: Vec<String> = roots.iter().map(|r| r.to_string()).collect();
                     cx_op!(cx, format!("gc {}", s.join(" ")));
@@ -797,9 +832,11 @@ fn find_carry_pair(rng: &mut crate::gen::Rng, maxraw: u64, both_regular: bool, o
 /// beyond 16 and 17 bits, hash arithmetic that wraps, long runs of occupied cells, holes far apart,
 /// diagrams whose nodes are 2^15 and 2^16 cells apart
 pub fn s_huge(cx: &mut Ctx) {
-    let cases = if cx.thorough { 3 } else { 1 };
+    // the last thorough case: a 2^22-cell manager holding more than 2^20 nodes
+    let cases = if cx.thorough { 4 } else { 1 };
     for ci in 0..cases {
-        let nblocks: usize = if cx.thorough { 300 + 350 * ci } else { 280 };
+        let nblocks: usize = if cx.thorough { [300, 650, 1000, 2600][ci] } else { 280 };
+        let bits = if ci == 3 { 22 } else { 20 };
         const BLOCK: usize = 512;
         let t_start = std::time::Instant::now();
         let lap = |what: &str| {
@@ -810,7 +847,7 @@ pub fn s_huge(cx: &mut Ctx) {
         cx.ex.begin_case();
         cx.ex.tt = None;
         cx.ex.scan_every = 1_000_000_000;
-        cx_op!(cx, "newdefault 20".to_string());
+        cx_op!(cx, format!("newdefault {}", bits));
         let nv = 40u64;
         let mut vars = vec![];
         for v in 1..=nv {
